@@ -32,4 +32,13 @@ CHECKS = {
                      "ASan+UBSan.  Exploration is the right level: the property quantifies over unbounded chains and "
                      "coins, which only sampling reaches.",
                 note=SAN_NOTE),
+    "C03": dict(ready=True, engine="two-party-engine", level="exploration", design_ref="DESIGN.md section 3 / C03",
+                technique="expected-accept monitor over honest prover/verifier executions on line channels (ASan+UBSan)",
+                text="All 39 public prover/verifier pairs of the library (harness/protos.hh: key share proofs, CP/OR, masking, "
+                     "re-masking, decryption, card and stack proofs in cut-and-choose / interactive / public-coin / "
+                     "non-interactive form, Groth and rotation arguments directly, commitments, coin flip, Rabin key "
+                     "validity and signatures) are run honestly as two cooperative tasks over in-memory line channels for "
+                     "several parameter worlds, sizes and coins; the verifier must accept every run.  Floors make a run "
+                     "that did not exercise every pair inconclusive.",
+                note=SAN_NOTE),
 }
